@@ -13,9 +13,13 @@ RULE = (
     "on every statement a trailing comment, inside the continuation of every continuable statement "
     "{comment line between the lines | trailing comment after '&'}, each with a text from a set "
     "containing quotes, '!', '&', ';' and directive-form texts; three configurations are parsed for "
-    "each placement (comments kept, ignored, directives processed). Non-trivial = >= 1 comment placed."
+    "each placement (comments kept, ignored, directives processed); same-text layer: one directive-form text "
+    "both as a trailing comment (any statement) and on a line of its own (any gap) in one source - all pairs of "
+    "positions - and in two successive parses of one process (both orders), each case in a forked child of a "
+    "process that has parsed nothing. Non-trivial = >= 1 comment placed."
 )
 ASSUMPTIONS = ["order model: a comment inside the physical span of a statement is delivered after that statement, every other comment keeps its place", "free-form sources"]
+FRESH_WORKER_PER_TASK = True  # the same-text layer needs processes that have parsed nothing
 BOUNDS = {"quick": dict(corpus_k=1, nest_depth=1, nest_k=2, nest_texts=4), "thorough": dict(corpus_k=2, corpus_k2=["P5", "P6", "P8"], nest_depth=2, nest_k=2, nest_texts=8)}
 
 TEXTS = ["! c", "!", "! it's \"q\"", "! a & b", "! x ! y ; z", "!$omp parallel", "!dir$ ivdep", "!$ x"]
@@ -199,6 +203,8 @@ def plan(tier, seed):
     for d in range(1, b["nest_depth"] + 1):
         for first in names:
             tasks.append(("B", tier, first, d))
+    for first in (("if", "do") if tier == "quick" else names):
+        tasks.append(("DP", tier, first))
     return tasks
 
 
@@ -219,8 +225,87 @@ def sig(kind, placed):
     return "C11|%s|%s|%s" % (kind, "+".join(kinds) or "none", dirs)
 
 
+DP_TEXTS = ["!$omp barrier", "!dir$ ivdep", "!gcc$ unroll 2"]
+
+
+def _dp_child(case):
+    """runs in a forked child of a process that has parsed nothing"""
+    for pre in case.get("pre", []):
+        try_parse(pre, case["std"], ignore_comments=False, process_directives=True)
+    o0 = try_parse(case["base"], case["std"])
+    placed = [tuple(p) for p in case["placed"]]
+    arg = (placed, [tuple(o) for o in case["order"]])
+    return judge(case["src"], arg, text_of(o0.tree), canon(o0.tree), case["std"])
+
+
+def run_dp(task):
+    """the SAME directive-form text once as a trailing comment and once on a
+    line of its own: in one source (every pair of positions) and in two
+    successive parses of one process (both orders).  Every case runs in a
+    forked child of a worker that has parsed nothing, so that its outcome is
+    that of a fresh process."""
+    from mc.forktree import run_isolated
+    from mc import corpus as C
+
+    res = Result()
+    _, tier, first = task
+    for seq in scenarios.kind_sequences(first, 1):
+        ch, prog = explore.run(scenarios.nest_scenario(seq), ())
+        std = G.prog_std(prog)
+        base_src = corpus.render(prog)
+        ds = C.depths(prog)
+        stmts = [(s, d) for s, d in zip(prog, ds) if s.kind != "program_anon"]
+        n = len(stmts)
+
+        def build(trail_at, line_at, text):
+            lines, placed, order = [], [], []
+            for i, (s, d) in enumerate(stmts):
+                ind = " " * (1 + 2 * d)
+                if i == line_at:
+                    lines.append(ind + text)
+                    placed.append((text, "gap"))
+                    order.append(("c", text))
+                lines.append(ind + s.line() + (" " + text if i == trail_at else ""))
+                order.append(("s", i))
+                if i == trail_at:
+                    placed.append((text, "trailing"))
+                    order.append(("c", text))
+            return "\n".join(lines) + "\n", placed, order
+
+        for text in DP_TEXTS[: (2 if tier == "quick" else 3)]:
+            cases = []
+            for a in range(n):
+                for bb in range(n):
+                    src, placed, order = build(a, bb, text)
+                    cases.append(("pair", {"src": src, "placed": [list(p) for p in placed], "order": [list(o) for o in order], "base": base_src, "std": std, "dp": True}))
+            for a in range(0, n, 2):
+                s_tr, p_tr, o_tr = build(a, None, text)
+                s_ln, p_ln, o_ln = build(None, a, text)
+                cases.append(("history", {"pre": [s_tr], "src": s_ln, "placed": [list(p) for p in p_ln], "order": [list(o) for o in o_ln], "base": base_src, "std": std, "dp": True}))
+                cases.append(("history", {"pre": [s_ln], "src": s_tr, "placed": [list(p) for p in p_tr], "order": [list(o) for o in o_tr], "base": base_src, "std": std, "dp": True}))
+            for what, case in cases:
+                res.evals += 1
+                res.transitions += 1 + len(case.get("pre", []))
+                hk = h64(repr(case.get("pre")), case["src"], std)
+                res.states.add(hk)
+                res.nontrivial.add(hk)
+                vs = run_isolated(_dp_child, case)
+                if isinstance(vs, tuple) and vs and vs[0] == "HARNESS-ERROR":
+                    res.violation("C11|harness|dp", vs[1], case)
+                    continue
+                res.outcomes["dp-%s:%s" % (what, "ok" if not vs else vs[0][0])] += 1
+                res.results.add(h64(what, repr(vs[:1])))
+                placed = [tuple(p) for p in case["placed"]]
+                for kind, detail in vs:
+                    res.violation(sig(kind, placed) + "|same-text-" + what, "%s std=%s%s\n%s\n--- source:\n%s" % ("-".join(seq), std, ("; parsed first (directive mode):\n" + case["pre"][0]) if case.get("pre") else "", detail, case["src"]), dict(case, what=what), cost=len(case["src"]) + 100000 * len(case.get("pre", [])))
+        res.sample({"program": "-".join(seq), "source": build(1, 2, DP_TEXTS[0])[0]})
+    return res
+
+
 def run(task):
     res = Result()
+    if task[0] == "DP":
+        return run_dp(task)
     for pid, prog, k, ntexts, shard, nshards in progs_of(task):
         std = G.prog_std(prog)
         base_src = corpus.render(prog)
@@ -253,6 +338,11 @@ def run(task):
 
 
 def replay(case):
+    if case.get("dp"):
+        from mc.forktree import run_isolated
+
+        placed = [tuple(p) for p in case["placed"]]
+        return [{"sig": sig(k, placed) + "|same-text-" + case["what"], "detail": d} for k, d in run_isolated(_dp_child, case)]
     o0 = try_parse(case["base"], case["std"])
     placed = [tuple(p) for p in case["placed"]]
     arg = (placed, [tuple(o) for o in case["order"]]) if case.get("order") else placed
